@@ -617,8 +617,8 @@ fn cb_wiring(with_fallback: bool) {
         // still pending after 4 polls: only possible while waiting for the breaker lock
         assert!(mon().live == 0, "[C03.pending_only_for_lock] with an immediate inner call the breaker call is pending only while it waits for the lock");
     }
-    kani::cover!(matches!(out, Some(Err(CircuitBreakerError::OpenCircuit))), "open-circuit rejection");
-    kani::cover!(matches!(out, Some(Ok(_))), "success");
+    kani::cover!(out.is_some() && !wire().permit, "rejected call resolved");
+    kani::cover!(matches!(out, Some(Ok(_))) && wire().permit, "admitted call succeeded");
 }
 
 #[kani::proof]
